@@ -168,3 +168,26 @@ CLAIMS["C11"] = {
     "note": "Trusted: the fake host's fidelity to swarm/basic host, asnutil, record.ConsumeEnvelope (C08). Between expiry and collection, after lost replies and with only limited connections left either answer is accepted; "
             "interleavings inside a batch come from the scheduler (a lock window of only Unlock/Lock is missed); the real circuit transport is smoke-tested only.",
 }
+
+CLAIMS["C02"] = {
+    "technique": "property-based testing (rapid) inside synctest bubbles over in-memory pipes with generated short-read/short-write chunking and a frame-aware man in the middle; bounded-exhaustive sweep of frame-size x buffer-size relations for the Noise reader; native fuzzing of the Noise read/write plan and loopback end-to-end runs (thorough); round-trip oracle on position-dependent payloads",
+    "design_ref": "DESIGN.md section 3, C02",
+    "text": "Bytes written to a Noise session, TLS conn, pnet conn, yamux streams, the real upgrader stack (Noise/TLS, optional PSK, both muxer-negotiation modes) and two BasicHosts (eager and lazy negotiation) must arrive exactly once, in "
+            "order and unmodified, with EOF exactly after the last byte following CloseWrite: lengths 0 to just above 3 Noise frames concentrated at 65519/65535/65536/k*65519+-1 and yamux's 65524/256 KiB, every kind of write split, read buffers "
+            "from 1 byte to larger than a frame and +-17 around the pending frame, short reads/writes of the connection underneath, bounded pipes, up to 5 interleaved streams from both sides, half-close followed by further reads; the three "
+            "Noise read paths are enumerated on a grid. Every generated alteration, drop, duplication, reordering, truncation or forged insertion of a post-handshake Noise frame or TLS record must give the reader an error and never a byte the "
+            "writer did not send at that position. Thorough: real hosts over TCP, WS, QUIC, WebTransport, WebRTC-direct and the shared TCP listener (sampledconn). 17/18 probe mutants detected (1 equivalent). Exploration.",
+    "note": "internal/memnet and the chunking wrapper are checked by the same oracle in the pnet layer; EOF after whole-frame truncation counts as the error; accept order is assumed at the muxer level; L6 and fuzzing run in the thorough tier only "
+            "(stalls on real sockets are inconclusive, never violations).",
+}
+CLAIMS["C13"] = {
+    "technique": "property-based state-machine testing with a reference model (rapid + synctest virtual time, injected scheduling point inside the address update) + native coverage-guided fuzzing of the identify stream (thorough) + race-detector pass",
+    "design_ref": "DESIGN.md section 3, C13",
+    "text": "A real identify service on a fake host (real pstoremem, event bus, multistream) is driven by generated histories of open/push/close/sleep/IdentifyWait on up to four connections to one authenticated peer with structured messages "
+            "(0-3000 protocols, 0-1500 addresses of every class, own/foreign/garbage keys, ten kinds of signed record, 1-12 chunks, malformed/oversized/truncated streams); deliveries race with disconnects, including a disconnect forced inside the "
+            "address update. After every step every other peer's entry is unchanged, the stored key equals the peer's key, stored addresses are a subset of listen addresses plus records that validate, are signed by and name the peer (filtered by "
+            "connection class, no foreign /p2p, <= 500), protocols <= 1024, addresses do not expire while a connection exists, at most 20 survive a clean last disconnect and all are gone after RecentlyConnectedAddrTTL, every IdentifyWait channel "
+            "closes within timeout + epsilon. 21 probe mutants detected in the quick tier. Exploration.",
+    "note": "Network, connections and streams are fakes following the swarm's Connectedness and notification order; the peerstore is pstoremem, in some cases with a key book that trusts its caller and an enlarged protocol book; one speaking remote "
+            "peer per case; no loopback remotes; same-instant events race under the Go scheduler and the oracle accepts every order.",
+}
